@@ -17,7 +17,7 @@ from __future__ import annotations
 import ast
 import math
 
-from ..absint import Interp, Sym, Lin, Obj, Raised, explore, show
+from ..absint import Interp, Sym, Lin, Obj, Raised, explore, show, has_opaque
 from ..bits import Bits
 from ..consts import Folder
 from ..fmtpieces import pieces, FormatError
@@ -93,7 +93,7 @@ def run(ctx):
         v = folder.global_(tm, name)
         ctx.check("type-constants", name, v == T[k], "module", "%s = %r" % (name, v), "%s is 0x%02x in ResourceTypes.h, types.py says %r" % (name, T[k], v), file=tm.relpath)
 
-    hooks = {"inline_funcs": {"complexToFloat"}}
+    hooks = {"inline_funcs": {"*module*"}}
 
     def run_type(t):
         def run(asg):
@@ -140,6 +140,8 @@ def _check_path(ctx, fv, name, t, asg0, r):
     d = data_bits(asg)
 
     def fail(msg):
+        if has_opaque(out, allow=("lookup_string",)):
+            raise AnalysisError("format_value: the result for TYPE_%s contains a term the interpreter could not evaluate (%s)" % (name, show(out)[:200]))
         ctx.check(rule, inst, False, fv, "TYPE_%s: %s" % (name, msg[:100]), "TYPE_%s is formatted wrongly: %s (result %s)" % (name, msg, show(out)[:200]), witness=_dwit(asg))
 
     def ok(detail):
@@ -267,6 +269,8 @@ def _check_arsc_getters(ctx, repo, folder, m, hooks):
                         good = okf and bf == mant and math.isclose(const, RADIX[radix.value()], rel_tol=1e-6)
                         if okf and bf != mant:
                             why = "mantissa is %s, Android takes the signed mantissa %s" % (bf.describe(), mant.describe())
+            if not good and has_opaque(out, allow=("get_value",)):
+                raise AnalysisError("%s: the result contains a term the interpreter could not evaluate (%s)" % (gname, show(out)[:200]))
             ctx.check("arsc-getter", inst, good, f, "%s: %s" % (gname, why[:100]), "%s formats the datum wrongly: %s" % (gname, why), witness=_dwit(asg))
     ctx.floor("getter_paths", 20)
 
